@@ -30,7 +30,7 @@ def expectedCalls : List (String × List String) := [
   ("TxPool.MarkExecuted", ["lock.Lock", "lock.Unlock", "findTxInList", "types.MarshalTransaction", "json.Marshal", "batch.Put", "batch.ValueSize", "batch.Write", "batch.Reset", "refreshGateNonce", "batch.ValueSize", "batch.Write", "batch.Reset", "evictedTxs.Add", "remove"]),
   ("TxPool.PackForCast", ["received.asSlice", "common.IsProposal018", "checkNonce"]),
   ("TxPool.TxNum", ["received.Len"]),
-  ("TxPool.UnMarkExecuted", ["lock.Lock", "lock.Unlock", "evictedTxs.Remove", "executed.Delete", "add"]),
+  ("TxPool.UnMarkExecuted", ["return", "lock.Lock", "lock.Unlock", "evictedTxs.Remove", "executed.Delete", "add"]),
   ("TxPool.add", ["isTransactionExisted", "received.push", "received.Len"]),
   ("TxPool.checkNonce", ["sort.Sort", "GetNonce", "common.HexToAddress"]),
   ("TxPool.isTransactionExisted", ["received.contains", "executed.Has"]),
